@@ -50,16 +50,21 @@ def run_impl(binp, cases):
         raise RuntimeError("futures-driver rc=%d blocks=%d/%d %s" % (rc, len(blocks), len(cases), se[-1500:]))
     res = []
     AGAIN.clear()
+    GLOB.clear()
     for b in blocks:
         ls = b.split("\n")
-        AGAIN.append([l[len("again "):] for l in ls if l.startswith("again ")])
-        res.append([l for l in ls if not l.startswith("again ")])
+        AGAIN.append([l[len("again "):].rsplit(" ; glob ", 1)[0] for l in ls if l.startswith("again ")])
+        main = [l for l in ls if not l.startswith("again ")]
+        # the global report (use_is_loading_global) is judged by the oracle only: the LTS prints no such field
+        GLOB.append([l.rsplit(" ; glob ", 1)[1] if " ; glob " in l else None for l in main])
+        res.append([l.rsplit(" ; glob ", 1)[0] for l in main])
     return res
 
 
 # per scenario of the last run_impl: what the same tree showed when it was built again in the re-used root right after the final
 # root disposal (before the executor dropped the cancelled tasks); must equal the scenario's first line
 AGAIN = []
+GLOB = []
 
 
 def run_model(pid, cases, chunk=40):
@@ -96,6 +101,8 @@ def parse_line(l):
     """'log a b ; load 1=1 2=0/dead' -> (events, {id: (outer, inner)})"""
     if l.startswith("end"):
         return l[4:].split(), {}
+    if " ; glob " in l:
+        l = l.rsplit(" ; glob ", 1)[0]
     lg, ld = l.split(" ; load")
     loads = {}
     for p in ld.split():
